@@ -80,10 +80,6 @@ func Plain(rng *rand.Rand, maxLen int) []byte {
 	}
 }
 
-type synthOpts struct {
-	illegal int // 0 = legal; otherwise which rule to break
-}
-
 // SynthFlate builds a DEFLATE stream at the bit level. When breakRule > 0
 // one rule of RFC 1951 is violated somewhere (the result is then probably
 // invalid; Valid is left false and the references decide).
